@@ -21,6 +21,7 @@ mod p09;
 mod p10;
 mod p11;
 mod p12;
+mod p13;
 mod p14;
 mod p16;
 mod p17;
@@ -48,6 +49,7 @@ fn modules() -> Vec<Module> {
         ("C10", p10::run_all, p10::checks),
         ("C11", p11::run_all, p11::checks),
         ("C12", p12::run_all, p12::checks),
+        ("C13", p13::run_all, p13::checks),
         ("C14", p14::run_all, p14::checks),
         ("C16", p16::run_all, p16::checks),
         ("C17", p17::run_all, p17::checks),
